@@ -716,7 +716,16 @@ class Interp(object):
         if k == "assign":
             _, m, st, target = r
             try:
-                return self.ops.ce.name(m, name)
+                v = self.ops.ce.name(m, name)
+                if isinstance(v, (dict, list, set)):
+                    # a mutable module-level container: one object per interpretation (the folded constant is
+                    # shared by the whole process and must never be mutated by an interpreted program)
+                    dkey = (m.name, name)
+                    if dkey not in self.modcache:
+                        import copy
+                        self.modcache[dkey] = copy.deepcopy(v)
+                    return self.modcache[dkey]
+                return v
             except NotConst:
                 pass
             # one value per defining module and name, whichever module imports it (singletons)
@@ -1015,6 +1024,17 @@ class Interp(object):
             return Prim(lambda it, a, k, key=args[0]: it.subscript_value(a[0], key), "itemgetter(%r)" % (args[0],))
         if n == "partial":
             return Partial(args[0], args[1:], kwargs)
+        if n == "reduce" and len(args) in (2, 3):
+            items = list(self.iterate(args[1]))
+            if len(args) == 3:
+                acc = args[2]
+            elif items:
+                acc, items = items[0], items[1:]
+            else:
+                raise AbsRaise("TypeError", ("reduce() of empty iterable with no initial value",))
+            for x in items:
+                acc = self.call(args[0], [acc, x])
+            return acc
         if n == "warn":
             return None
         if n in ("chain",):
